@@ -89,38 +89,48 @@ Proof. exact ranges_scalar_ok. Qed.
 Print Assumptions C12_ranges_scalar.
 
 (* --- agreement with the ECMAScript grammar on the fragment ---
-   in_fragment l (Regex/FragParser.v): every unit of l is a pattern character or one of  . | ( ) ? * + ^ $ , and
-   every `(?<` is followed by `=` or `!` (look-behind; named groups are outside the fragment).
+   in_fragment u l (Regex/FragParser.v), a left-to-right scan of the units of l:
+     a backslash is followed by a unit other than a decimal digit and c k x u p P, and the escaped unit is skipped;
+     every other unit is a pattern character or one of  . | ( ) ? * + ^ $  (no bare bracket or brace);
+     every `(?<` is followed by `=` or `!` (look-behind; named groups are outside the fragment);
+     without u no unit is a closing bracket or a brace at all.
    Pattern u (Regex/Grammar.v): the ES2022 grammar (22.2.1 + Annex B behind the u switch) of the fragment
-   Disjunction, Alternative, Term (incl. Annex B QuantifiableAssertion Quantifier), Assertion ^ $ (?= (?! (?<= (?<!,
-   Quantifier * + ? with lazy suffix, Atom = PatternCharacter | . | ( ) | (?: ).
+   Disjunction, Alternative, Term (incl. Annex B QuantifiableAssertion Quantifier), Assertion ^ $ \b \B (?= (?! (?<= (?<!,
+   Quantifier * + ? with lazy suffix, Atom = PatternCharacter | . | \ AtomEscape | ( ) | (?: ), AtomEscape =
+   CharacterClassEscape d D s S w W | ControlEscape f n r t v | IdentityEscape[?U] (Annex B without u).
    The units are the ones the validator reads (code points with u, UTF-16 code units without).
    From any validator state, in both modes: the model accepts exactly the Patterns. *)
-Theorem C12_fragment_equiv : forall st s u, in_fragment (visible_units s u) = true ->
+Theorem C12_fragment_equiv : forall st s u, in_fragment u (visible_units s u) = true ->
   (verdict_of (validate_pattern st s u) = VOk <-> Pattern u (visible_units s u)).
 Proof. exact fragment_equiv. Qed.
 Print Assumptions C12_fragment_equiv.
 
-Theorem C12_fragment_reject : forall st s u, in_fragment (visible_units s u) = true -> ~ Pattern u (visible_units s u) ->
+Theorem C12_fragment_reject : forall st s u, in_fragment u (visible_units s u) = true -> ~ Pattern u (visible_units s u) ->
   exists m, verdict_of (validate_pattern st s u) = VErr m.
 Proof. exact fragment_reject. Qed.
 Print Assumptions C12_fragment_reject.
 
-(* the executable recogniser that is cross-validated against V8 decides the grammar on the fragment alphabet *)
-Theorem C12_recogniser_decides_grammar : forall u l, chars_ok l = true -> (recognises u l = true <-> Pattern u l).
+(* the executable recogniser that is cross-validated against V8 decides the grammar (chars_ok u l: u = true, or no unit
+   of l is a closing bracket or a brace) *)
+Theorem C12_recogniser_decides_grammar : forall u l, chars_ok u l = true -> (recognises u l = true <-> Pattern u l).
 Proof. exact recognises_iff_Pattern. Qed.
 Print Assumptions C12_recogniser_decides_grammar.
 
-(* non-vacuity.  ex_valid = the 28 units of  ^ ( a | b STAR ) PLUS ? (?<= c ) (?! d ) (?: e | ) ? $  : a Pattern, accepted, in both modes;
-   ex_annexb = (?= a ) STAR b : a Pattern without u only (Annex B QuantifiableAssertion), accepted without u only;
-   a STAR STAR, a lone open paren, ^ STAR and a quantified look-behind: neither Patterns nor accepted, in both modes *)
+(* non-vacuity.  ex_valid = the 35 units of  ^ \b ( a | \d STAR ) PLUS ? (?<= \. ) (?! \w ) (?: e | ) ? \B $ :
+   in the fragment, a Pattern, accepted, in both modes;
+   ex_annexb = (?= a ) STAR b  and  ex_annexb_escape = \a : Patterns without u only (Annex B), accepted without u only;
+   a STAR STAR, a lone open paren, ^ STAR, a quantified look-behind, \b STAR, \d STAR STAR: neither Patterns nor accepted *)
 Example C12_fragment_example_valid : forall st u,
-  in_fragment ex_valid = true /\ Pattern u ex_valid /\ verdict_of (validate_pattern st ex_valid u) = VOk.
-Proof. intros st u. split; [exact ex_valid_ok|split; [exact (ex_valid_pattern u) | exact (ex_valid_accepted st u)]]. Qed.
-Example C12_fragment_example_annexb : forall st,
-  (Pattern false ex_annexb /\ ~ Pattern true ex_annexb) /\
-  (verdict_of (validate_pattern st ex_annexb false) = VOk /\ verdict_of (validate_pattern st ex_annexb true) <> VOk).
-Proof. intros st. split; [exact ex_annexb_modes | exact (ex_annexb_validator st)]. Qed.
-Example C12_fragment_example_invalid : forall st u l, In l [[97;42;42]; [40]; [94;42]; [40;63;60;61;97;41;42]] ->
+  in_fragment u ex_valid = true /\ Pattern u ex_valid /\ verdict_of (validate_pattern st ex_valid u) = VOk.
+Proof. intros st u. split; [exact (ex_valid_ok u)|split; [exact (ex_valid_pattern u) | exact (ex_valid_accepted st u)]]. Qed.
+Example C12_fragment_example_annexb : forall st l, In l [ex_annexb; ex_annexb_escape] ->
+  (Pattern false l /\ ~ Pattern true l) /\
+  (verdict_of (validate_pattern st l false) = VOk /\ verdict_of (validate_pattern st l true) <> VOk).
+Proof.
+  intros st l Hin. split; [|exact (ex_annexb_validator st l Hin)].
+  cbn [In] in Hin. destruct Hin as [<-|[<-|[]]]; [exact (proj1 ex_annexb_modes)|exact (proj2 ex_annexb_modes)].
+Qed.
+Example C12_fragment_example_invalid : forall st u l,
+  In l [[97;42;42]; [40]; [94;42]; [40;63;60;61;97;41;42]; [92;98;42]; [92;100;42;42]] ->
   ~ Pattern u (visible_units l u) /\ verdict_of (validate_pattern st l u) <> VOk.
 Proof. exact ex_invalid. Qed.
